@@ -346,6 +346,107 @@ func bodySlowBuilder(useBuilder bool) func(c *drv.Ctx) {
 	}
 }
 
+// ---- two overlapping backups, the second one slow: both take their copy reader on the same
+// never-persisted root; the fast one finishes (its CloseCopyReader must only decrement the
+// protection the slow one still needs); the live index merges the shared files away, persists
+// newer roots and purges; then the slow backup copies its files.
+func bodyTwoOverlapping(c *drv.Ctx) {
+	src := c.Dir + "/src"
+	conf := map[string]interface{}{"scorchMergePlanOptions": bx.CopyConfig(bx.AggressiveMergePlan), "numSnapshotsToKeep": 1, "unsafe_batch": true}
+	parked := make(chan int, 4)
+	start := make(chan int, 4)
+	rel := []chan int{make(chan int, 1), make(chan int, 1)}
+	errs := make([]error, 2)
+	los, his := make([]int, 2), make([]int, 2)
+	acked, submitted := 0, 0
+	var idx bleve.Index
+	var wg vrt.WaitGroup
+	for n := 0; n < 2; n++ {
+		n := n
+		wg.Add(1)
+		vrt.Go(func() { // created before the index: outrun scorch's own goroutines in the default schedule
+			defer wg.Done()
+			vrt.Recv(start)
+			los[n] = acked
+			g := &gatedDir{FileSystemDirectory: bleve.FileSystemDirectory(fmt.Sprintf("%s/dst%d", c.Dir, n)), parked: parked, release: rel[n]}
+			errs[n] = idx.(bleve.IndexCopyable).CopyTo(g)
+			his[n] = submitted
+		})
+	}
+	do := func(j int) {
+		b := idx.NewBatch()
+		lww.Fill(b, partial[j-1])
+		submitted = j
+		if err := idx.Batch(b); err != nil {
+			c.Fail("error:batch", "Batch: %v", err)
+		}
+		acked = j
+	}
+	vrt.Free(func() {
+		var err error
+		idx, err = bleve.NewUsing(src, bleve.NewIndexMapping(), scorch.Name, scorch.Name, conf)
+		if err != nil {
+			panic(err)
+		}
+		vrt.WaitIdle()
+		do(1)
+		vrt.WaitIdle()
+	})
+	do(2)
+	vrt.Send(start, 1)
+	vrt.Send(start, 1)
+	vrt.Recv(parked) // both backups hold their copy reader and are parked before their first file
+	vrt.Recv(parked)
+	do(3)
+	vrt.WaitIdle()
+	vrt.Send(rel[0], 1) // the fast backup completes
+	vrt.WaitIdle()
+	do(4)
+	vrt.WaitIdle()
+	for round := 0; round < 3; round++ {
+		idx.SetInternal([]byte("tick"), []byte(strconv.Itoa(round)))
+		vrt.WaitIdle()
+	}
+	c.Observe(fmt.Sprintf("files=%d", len(zapFiles(filepath.Join(src, "store")))))
+	vrt.Send(rel[1], 1) // now the slow backup copies its files
+	wg.Wait()
+	vrt.Free(func() {
+		for n, err := range errs {
+			if err != nil {
+				c.Fail("copyto-error", "backup #%d (slow=%v) failed: %v — a segment file needed by the copy was removed before the copy ended", n, n == 1, err)
+				continue
+			}
+			ci, err := bleve.Open(fmt.Sprintf("%s/dst%d", c.Dir, n))
+			if err != nil {
+				c.Fail("copy-does-not-open", "backup #%d does not open: %v", n, err)
+				continue
+			}
+			v, _ := ci.GetInternal([]byte("seq"))
+			q := 0
+			if v != nil {
+				q, _ = strconv.Atoi(string(v))
+			}
+			if bad := modelOf(partial, q).Check(ci, ids, keys); len(bad) > 0 {
+				c.Fail("copy-not-a-whole-batch-state", "backup #%d claims batch %d but: %s", n, q, strings.Join(bad, "; "))
+			}
+			if q < los[n] || q > his[n] {
+				c.Fail("copy-outside-window", "backup #%d is at batch %d, outside [%d acknowledged before it began, %d submitted when it ended]", n, q, los[n], his[n])
+			}
+			c.Observe(fmt.Sprintf("copy%d@%d", n, q))
+			ci.Close()
+		}
+		if bad := modelOf(partial, 4).Check(idx, ids, keys); len(bad) > 0 {
+			c.Fail("source-affected", "source after the backups: %s", strings.Join(bad, "; "))
+		}
+		if st, err := bx.Scorch(idx).VerifFileState(); err == nil && len(st.CopySched) > 0 {
+			c.Fail("copy-scheduled-left", "files still protected for a copy after all copies ended: %v", st.CopySched)
+		}
+		if err := idx.Close(); err != nil {
+			c.Fail("error:close", "Close: %v", err)
+		}
+	})
+}
+
 // ---- backup of a root that still holds unpersisted segments whose documents were already
 // obsoleted by later acknowledged batches: the persister is parked at its idle point (public event
 // callback, EventKindPurgerCheck) after batch 1; batches 2 and 3 (unsafe: acknowledged once
@@ -487,6 +588,7 @@ func Scenarios() []drv.Scenario {
 		mk(cfg{name: "copy-from-start-unsafe-segments-keep-live-documents", copies: 1, startAt: 0, batches: 4, conf: unsafeAgg, wl: partial}, nil, d2),
 		mk(cfg{name: "copy-from-start-unsafe", copies: 1, startAt: 0, batches: 3, conf: unsafeAgg}, d1r, d2),
 		{Name: "slow-backup-of-builder-made-index", Body: bodySlowBuilder(true), Quick: d1r, Thorough: d2, Class: "backup", MaxSteps: 1500000},
+		{Name: "two-overlapping-backups-second-slow-unsafe", Doc: "two backups take their copy reader on the same never-persisted root; the fast one ends; merges, persists and purges; then the slow one copies", Body: bodyTwoOverlapping, Quick: d1r, Thorough: d2, Class: "backup", MaxSteps: 1500000},
 		{Name: "slow-backup-unsafe", Body: bodySlowBuilder(false), Quick: d1r, Thorough: d2, Class: "backup", MaxSteps: 1500000},
 		{Name: "backup-of-unpersisted-segments-with-obsoleted-documents-unsafe", Doc: "persister parked idle after batch 1; batches 2,3 in memory (3 obsoletes documents of 2); then CopyTo ∥ batch 4 ∥ persister resumes", Body: bodyUnpersisted(1), Quick: d1r, Thorough: d2, Class: "backup", MaxSteps: 1500000},
 		{Name: "backup-of-unpersisted-segments-2-persister-workers-unsafe", Doc: "same with two persister workers merging in memory", Body: bodyUnpersisted(2), Quick: nil, Thorough: d1, Class: "backup", MaxSteps: 1500000},
